@@ -94,3 +94,4 @@ Proof.
         -- rewrite (cat_rows_add_other k k' _ _ _ NK). tauto.
       * rewrite (reg_of_add_other _ _ _ _ _ _ NV). tauto.
 Qed.
+
